@@ -928,8 +928,17 @@ func clearDetector() {
 		return
 	}
 
+	// The detector converts every message into session details before it looks at the
+	// operation (pubsub_handle_s2d in src/sessions.rs) and drops messages whose addresses or
+	// protocol it cannot parse. The clear request carries placeholders for those fields so
+	// that it reaches the dispatch and is acted upon.
 	op := pb.StationOperations_Clear
+	placeholder := net.IPv4zero.String()
+	tcp := pb.IPProto_Tcp
 	msg := &pb.StationToDetector{
+		PhantomIp: &placeholder,
+		ClientIp:  &placeholder,
+		Proto:     &tcp,
 		Operation: &op,
 	}
 
